@@ -450,6 +450,16 @@ func c03fonts(c *mon.Ctx) {
 		}
 		k.Class("writer:Write:" + info.Kind)
 		ximageCompare(k, f, info, out, desc)
+		// the same font value written again after a glyph was renamed in place:
+		// the file must carry the names the font has now
+		if go_, isGlyf := f.Outlines.(*glyf.Outlines); isGlyf && len(go_.Names) > 2 && k.Index%4 == 2 {
+			g := 1 + r.IntN(len(go_.Names)-1)
+			go_.Names[g] = fmt.Sprintf("renamed.%d", g)
+			if out2, ok := writeFont(k, f, "Write(F) after a glyph was renamed"); ok {
+				ximageCompare(k, f, info, out2, desc+fmt.Sprintf(" (second write, glyph %d renamed in place)", g))
+				k.Class("ximage:second-write-after-rename")
+			}
+		}
 		// glyph names of a simple CFF font, as an independent reader finds
 		// them in the charset of the written file (x/image does not decode
 		// CFF glyph names)
@@ -539,7 +549,7 @@ func c03fonts(c *mon.Ctx) {
 			k.Sample(desc + fmt.Sprintf(" file=%d bytes", len(out)))
 		}
 	})
-	c.Require("cff:glyph-names-compared", "cff:custom-name-run=255", "cff:custom-name-run=256", "cff:custom-name-run=257", "cff:string-index-data=254", "cff:string-index-data=255", "cff:string-index-data=256", "ximage:vertical-metrics-compared", "ximage:post-header-compared", "ximage:name-strings-compared")
+	c.Require("ximage:second-write-after-rename", "cff:glyph-names-compared", "cff:custom-name-run=255", "cff:custom-name-run=256", "cff:custom-name-run=257", "cff:string-index-data=254", "cff:string-index-data=255", "cff:string-index-data=256", "ximage:vertical-metrics-compared", "ximage:post-header-compared", "ximage:name-strings-compared")
 	c.Require("writer:Write:glyf", "writer:Write:cff", "writer:Write:cid", "writer:WriteTrueTypePDF", "writer:WriteTrueTypePDF:extra-tables", "writer:WriteOpenTypeCFFPDF",
 		"ximage:cmap-compared", "ximage:simple-outline-compared", "ximage:composite-outline-compared", "ximage:cff-outline-compared", "ximage:name-compared")
 }
